@@ -15,6 +15,11 @@ fi
 git -C /repo worktree remove --force $wt
 echo "demo with change: exit $with ; without: exit $without ; tests: $tests"
 git -C /repo apply $d/patch.diff || exit 2
+# evidence and replay files committed in /verif must come from the unchanged tree: keep them aside while checking the changed tree
+cp /verif/evidence/$prop.json /tmp/seed_evidence_keep.json 2>/dev/null
+rm -rf /tmp/seed_replays_keep && cp -r /verif/replays /tmp/seed_replays_keep 2>/dev/null
 (cd /verif && ./check $prop quick > /tmp/seed_check.out 2>/tmp/seed_check.err); rc=$?
 git -C /repo checkout -- .
+cp /tmp/seed_evidence_keep.json /verif/evidence/$prop.json 2>/dev/null
+if [ -d /tmp/seed_replays_keep ]; then rm -rf /verif/replays && cp -r /tmp/seed_replays_keep /verif/replays; fi
 echo "check rc=$rc"; grep -h "VIOLATION\|KNOWN\|BROKEN" /tmp/seed_check.out /tmp/seed_check.err | head -5; grep pyvc /tmp/seed_check.err | cut -c1-300
